@@ -216,6 +216,77 @@ def r18c(ctx):
                       "TreeNode.copy no longer builds each node from the copies of its children")
 
 
+def r18l(ctx):
+    m = ctx.model
+    ctx.rule("R18l", "conversion is as deep as the builder: Builder.build_tree and TreeNode.copy are iterative on purpose, so node "
+                     "constructors must not walk the depth of the tree themselves.  A constructor that uses its children as keys of a "
+                     "dict or members of a set hashes each child, and a __hash__ that is `hash(<children>)` without a cached value "
+                     "recurses to the leaves: a list nested a few hundred levels deep cannot be built (RecursionError), and building "
+                     "costs O(n * depth)")
+    TREE = "graphtage.tree.TreeNode"
+    n = 0
+    rec_hash = {}
+    for q in sorted(m.subclasses(TREE)):
+        h = m.method(q, "__hash__")
+        if h is None:
+            continue
+        rets = [r for r in walk_no_nested(h.node) if isinstance(r, ast.Return) and r.value is not None]
+        cached = any(isinstance(a, (ast.Assign, ast.AnnAssign)) and self_attr(a.targets[0] if isinstance(a, ast.Assign) else a.target)
+                     for a in walk_no_nested(h.node))
+        if rets and all(isinstance(r.value, ast.Call) and call_name(r.value) == "hash" and r.value.args and
+                        (self_attr(r.value.args[0]) or "frozenset(" in ast.unparse(r.value.args[0]) or "tuple(" in ast.unparse(r.value.args[0]))
+                        for r in rets) and not cached:
+            rec_hash[q] = h
+    for q in sorted(m.subclasses(TREE)):
+        init = m.method(q, "__init__")
+        if init is None or init.cls != q or m.method(q, "__hash__") is None or m.method(q, "__hash__").cls not in rec_hash and m.method(q, "__hash__").qual not in {h.qual for h in rec_hash.values()}:
+            continue
+        for c in walk_no_nested(init.node):
+            keyed = None
+            if isinstance(c, ast.DictComp) and isinstance(c.key, ast.Name) and any(isinstance(g.target, (ast.Name, ast.Tuple)) and c.key.id in
+                                                                                   {x.id for x in ast.walk(g.target) if isinstance(x, ast.Name)}
+                                                                                   and "children" in ast.unparse(g.iter) for g in c.generators):
+                keyed = c
+            if keyed is None:
+                continue
+            n += 1
+            short = q.rsplit(".", 1)[-1]
+            hq = m.method(q, "__hash__")
+            ctx.violation("R18l", init.file, f"{short}.__init__", keyed, f"{short}.__init__ hashes its children",
+                          f"`{norm(keyed, 60)}` uses every child as a dictionary key while {hq.short} is `{norm(hq.node.body[-1], 40)}` with no "
+                          f"cached value: constructing a node hashes the whole subtree below it, recursively - a list nested ~500 deep "
+                          f"(which Builder.build_tree itself handles iteratively) raises RecursionError, dict nesting of 5000 does not")
+    if not n:
+        ctx.proved("R18l", "graphtage/", "-", None, "constructors do not hash subtrees", "no node constructor keys a dict by children under an uncached structural __hash__")
+    ctx.floor("R18l", len(rec_hash), 1, "structural __hash__ implementations")
+
+
+def r18m(ctx):
+    m = ctx.model
+    ctx.rule("R18m", "every entry of a mapping reaches the tree: the builder receives one built node per key and per value; collecting "
+                     "them in a Python dict keyed by the key NODES merges entries whose keys were distinct objects but build equal "
+                     "nodes (two instances of a user class with the same fields: identity-hashed as objects, structurally equal as "
+                     "PyObj nodes) - an entry is lost without any error, while the same two objects in a set are kept with multiplicity 2")
+    bq = m.find_class("BasicBuilder")
+    f = m.method(bq, "build_dict") if bq else None
+    if f is None:
+        ctx.inconclusive("R18m", "graphtage/builder.py", "BasicBuilder.build_dict", None, "build_dict", "BasicBuilder.build_dict not found")
+        return
+    hits = []
+    for c in walk_no_nested(f.node):
+        if isinstance(c, ast.DictComp) and any(isinstance(g.iter, ast.Call) and call_name(g.iter) == "zip" for g in c.generators):
+            hits.append(c)
+        elif isinstance(c, ast.Call) and call_name(c) == "dict" and c.args and isinstance(c.args[0], ast.Call) and call_name(c.args[0]) == "zip":
+            hits.append(c)
+    ctx.floor("R18m", 1, 1, "mapping builders")
+    if hits:
+        ctx.violation("R18m", f.file, "BasicBuilder.build_dict", hits[0], "pairs keyed by key nodes",
+                      f"`{norm(hits[0], 60)}` re-keys the entries by their built key nodes before DictNode.from_dict sees them: "
+                      f"`{{Point(1): 'first', Point(1): 'second'}}` (two distinct objects) arrives as one pair and 'first' is gone")
+    else:
+        ctx.proved("R18m", f.file, "BasicBuilder.build_dict", f.node, "pairs keyed by key nodes", "the pairs are passed on without being merged by node equality")
+
+
 def r18k(ctx):
     m = ctx.model
     ctx.rule("R18k", "reporting a cycle does not walk the cycle: Builder.build_tree never formats an object of the input graph with "
@@ -644,6 +715,8 @@ def r18i(ctx):
 
 def run(ctx):
     r18k(ctx)
+    r18l(ctx)
+    r18m(ctx)
     r18a(ctx)
     r18b(ctx)
     r18c(ctx)
